@@ -47,6 +47,9 @@ type prop struct {
 	Parts []part
 	Rule  string
 	Assumptions []string
+	// RaceIsViolation: race detector reports with a repository frame refute
+	// this property (C16, C15); elsewhere they are cross observations
+	RaceIsViolation bool
 }
 
 func findProp(id string) *prop {
@@ -258,7 +261,7 @@ type raceReport struct {
 	Repo  bool
 }
 
-var frameFn = regexp.MustCompile(`(?m)^  ([^\s(]+)\(`)
+var frameFn = regexp.MustCompile(`(?m)^  (\S+)\(\)$`)
 
 // splitRaces cuts race logs into report blocks and keys each by the set of
 // repository functions on its stacks (line numbers stripped).
@@ -561,6 +564,10 @@ func cmdRun(id, tier string, replayIdx int, replayPart string, verbose bool) int
 			if !rr.Repo {
 				harnessErr = true
 				inconclusive = append(inconclusive, "race report without a repository frame (harness race):\n"+firstLines(rr.Text, 40))
+				continue
+			}
+			if !pr.RaceIsViolation {
+				cross["C16:data-race"] += int64(raceKeys[k])
 				continue
 			}
 			violations = append(violations, run.Violation{Property: pr.ID, Clause: "data-race", Signature: "data-race/" + k,
